@@ -249,8 +249,54 @@ PLAN = {
 COST = {"KdqTreeBatch": 30, "HDDDM": 10, "CDBD": 8, "NNDVI": 8, "KdqTreeStreaming": 10}
 
 
+def drift_prefixes(name, p, maxlen=5, limit=3):
+    """Shortest update sequences (driver alphabet) after which the real detector reports drift:
+    scripted starts from non-initial states, so that second and third epochs lie deep inside the bound."""
+    d = DRIVERS[name]
+    found = []
+    frontier = [((), d.make(p))]
+    for _ in range(maxlen):
+        nxt = []
+        for pre, det in frontier:
+            for sym in d.alphabet(p):
+                x = copy.deepcopy(det)
+                try:
+                    d.feed(x, sym, p)
+                except Exception:
+                    continue
+                if x.drift_state == "drift":
+                    found.append(list(pre) + [sym])
+                    if len(found) >= limit:
+                        return found
+                else:
+                    nxt.append((pre + (sym,), x))
+        if found:
+            return found
+        frontier = nxt[:4000]
+    return found
+
+
 def tasks(tier, seed):
     out = []
+    for name in ("DDM", "EDDM", "STEPD", "PageHinkley", "CUSUM"):
+        d = DRIVERS[name]
+        dq, dt, split = PLAN[name]
+        depth = (dq if tier == "quick" else dt) - (3 if name in ("DDM", "EDDM", "STEPD") else 0)
+        for ci, p in enumerate(d.configs(tier)):
+            if name == "CUSUM" and p["burn_in"] == 0:
+                continue
+            for pre in drift_prefixes(name, p):
+                out.append(
+                    {
+                        "system": name,
+                        "cfg": {"id": ci, "params": p},
+                        "prefix": pre,
+                        "depth": depth,
+                        "label": "%s|%d|after-drift:%s" % (name, ci, ",".join(map(str, pre))),
+                        "cost": 4,
+                        "validate_every": 211,
+                    }
+                )
     for name in NAMES:
         d = DRIVERS[name]
         dq, dt, split = PLAN[name]
